@@ -24,6 +24,12 @@ class Dispatcher:
         fn = self._function_registry[input_data_type]
         return fn(*args, **kwargs)
 
+    def __deepcopy__(self, memo):
+        # a dispatcher is a process-wide registry that backends add their
+        # implementations to lazily: a copy taken earlier would miss them and
+        # make the copy of a check (or schema) unequal to the original
+        return self
+
     @property
     def co_code(self):
         """Method for getting bytecode of all the registered functions."""
